@@ -4,7 +4,7 @@ from ..core import f2b, b2f, run_harness, run_driver
 from .. import samples as S, sample_checks as SC, graphs, gen
 
 MODULE = "Momtrop.Props.C17"
-THEOREMS = []
+THEOREMS = ["Momtrop.C17.debug_irrelevant", "Momtrop.C17.meta_irrelevant", "Momtrop.C17.stability_only_rejects", "Momtrop.C17.fromRng_draws", "Momtrop.C17.history_irrelevant", "Momtrop.C17.interleaving_irrelevant"]
 RULE = ("accepted connected graphs incl. >=3 pairwise different non-dyadic weights; every request is evaluated (a) in a batch of one process "
         "in one order, (b) in a second process in reverse order, (c) between pairs of requests that differ only in the lambda coordinate "
         "by less than 2^-52 (tails and 1-2^-53 / 1-2^-52), (d) from 8 (quick) / 16 (thorough) threads on one shared sampler, (e) under all 8 "
